@@ -31,9 +31,17 @@ where
     /// Tries to optimize a given path using modified Lin-Kernighan-Helsgaun algorithm.
     /// Returns discovered solutions in the order of their improvement.
     pub fn optimize(mut self, path: Path) -> Vec<Path> {
+        // NOTE: keep track of all visited paths: a move with zero (or rounding error) gain can bring the
+        // search back to a tour which was already seen and the search would cycle endlessly otherwise
+        let mut visited = std::collections::HashSet::from([path.clone()]);
+
         self.solutions.push(path);
 
         while let Some(improved_path) = self.solutions.last().and_then(|p| self.improve(p.iter().copied())) {
+            if !visited.insert(improved_path.clone()) {
+                break;
+            }
+
             self.solutions.clear();
             self.solutions.push(improved_path);
         }
